@@ -55,7 +55,7 @@ def load_known():
 
 def san_env():
     return {
-        "ASAN_OPTIONS": "abort_on_error=1:detect_leaks=0:allocator_may_return_null=1",
+        "ASAN_OPTIONS": "abort_on_error=1:detect_leaks=0:allocator_may_return_null=1:malloc_context_size=3",
         "UBSAN_OPTIONS": "abort_on_error=1:halt_on_error=1:print_stacktrace=1",
         "TSAN_OPTIONS": "halt_on_error=1:second_deadlock_stack=1:exitcode=66",
     }
@@ -120,7 +120,7 @@ def run_check(mod, tier, seed, replay=None):
         ensure_nets(plan["nets"])
     if replay:
         rb = plan.get("replay_bin") or plan["builds"][0]
-        cmd = [build.binpath(*rb), "--prop", pid, "--replay", replay] + plan.get("replay_args", [])
+        cmd = [build.binpath(*rb), "--prop", pid, "--replay", replay] + [str(x) for x in plan.get("replay_args", [])]
         env = dict(os.environ); env.update(san_env()); env.update(plan.get("env") or {})
         p = subprocess.run(cmd, env=env, cwd=VERIF)
         if p.returncode != 0:
@@ -150,7 +150,7 @@ def run_check(mod, tier, seed, replay=None):
                 binsel = tuple(meta["bin"])
         except Exception:
             pass
-        specs.append(dict(cmd=[build.binpath(*binsel), "--prop", pid, "--replay", f] + plan.get("replay_args", []),
+        specs.append(dict(cmd=[build.binpath(*binsel), "--prop", pid, "--replay", f] + [str(x) for x in plan.get("replay_args", [])],
                           env=plan.get("env"), timeout=plan.get("replay_timeout", 600),
                           log=os.path.join(work, "regress%d.log" % i), kind="regress", file=f))
     for i, sh in enumerate(plan["shards"]):
@@ -232,7 +232,7 @@ def run_check(mod, tier, seed, replay=None):
     try:
         from . import shrink
         rbin = plan.get("replay_bin") or plan["builds"][0]
-        prefix = [build.binpath(*rbin), "--prop", pid] + plan.get("replay_args", []) + ["--replay"]
+        prefix = [build.binpath(*rbin), "--prop", pid] + [str(x) for x in plan.get("replay_args", [])] + ["--replay"]
         menv = dict(os.environ); menv.update(san_env()); menv.update(plan.get("env") or {})
         done = 0
         for i, v in enumerate(violations):
